@@ -46,9 +46,9 @@ theorem deleteThread_noVM (fuel : Nat) {s : State} (h : NInv s) (t : Nat) : NoVM
       have h3 := cancelEvents_ninv h2 t
       have v3 : NoVM _ t := v2.of_q (cancelEvents_q [] _ t)
       have h4 := n.ur _ t nameDelete h3
-      have v4 := v3.of_q (q.ur [] _ t nameDelete h3 (Or.inr ht))
+      have v4 := v3.of_q (q.ur [] _ t nameDelete h3 (Or.inr ⟨ht, Or.inl rfl⟩))
       have h5 := n.ur _ t nameRemove h4
-      have v5 := v4.of_q (q.ur [] _ t nameRemove h4 (Or.inr ht))
+      have v5 := v4.of_q (q.ur [] _ t nameRemove h4 (Or.inr ⟨ht, Or.inr rfl⟩))
       have h6 := n.ua _ t h5
       have v6 := v5.of_q (q.ua [] _ t h5)
       have v7 := v6.of_q (q.cwa [] _ t h6)
@@ -284,7 +284,7 @@ theorem HostOp.apply_hinv2 {s : State} (h : HInv2 s) (op : HostOp) (hok : op.ok)
     rw [hostExecute_eq]
     have hs : HInv ({ s with clock := s.clock + k } : State) :=
       ⟨hi.congr rfl rfl rfl rfl rfl rfl rfl rfl rfl, h.h.cur, h.h.depth, h.h.td,
-        Nat.le_trans h.h.ck1 (Nat.le_add_right _ _), h.h.ck2, h.h.ck3⟩
+        Nat.le_trans h.h.ck1 (Nat.le_add_right _ _), h.h.ck2⟩
     have h0 := frameSetTime_hinv hs
     have j0 : J [] (frameSetTime { s with clock := s.clock + k }) := h.j.congr rfl rfl rfl
     have r1 := processEvents_hr defaultFuel (frameSetTime { s with clock := s.clock + k })
